@@ -13,6 +13,7 @@ pub struct C14;
 #[derive(Clone, Debug, Serialize, Deserialize)]
 pub enum Sc14 {
     Client(CScenario),
+    Server(super::sgen::SScenario),
 }
 
 pub fn client_profile() -> CProfile {
@@ -109,11 +110,16 @@ impl Prop for C14 {
         }
     }
     fn strategy(&self, _tier: Tier) -> BoxedStrategy<Sc14> {
-        scenario_strategy(&client_profile()).prop_map(Sc14::Client).boxed()
+        prop_oneof![
+            scenario_strategy(&client_profile()).prop_map(Sc14::Client),
+            super::sgen::scenario_strategy(&super::sprops::c14s_profile()).prop_map(Sc14::Server),
+        ]
+        .boxed()
     }
     fn run_case(&self, sc: &Sc14) -> CaseResult {
         match sc {
             Sc14::Client(c) => check_client(c),
+            Sc14::Server(s) => super::sprops::c14s_check(s),
         }
     }
 }
